@@ -8,6 +8,9 @@ from vsim import core, policy, load
 
 FINAL = ('DONE', 'FAILED', 'SKIPPED')
 MALFORMED = ('none', 'notpair', 'triple', 'badstatus', 'nonmapping')
+# a mapping that cannot be merged: it replaces the task's own entry (a mapping
+# holding its status and clocks) by something that is not a mapping
+UNMERGEABLE = ('clobber',)
 OUTCOMES_WELL = ('ok', 'raise', 'failed')
 
 TICKS = (1e-6, 1e-5, 1e-4, 1e-3, 1e-2)
@@ -51,6 +54,9 @@ def gen_scenario(rng, *, family='well', cyclic=False, init_env=False,
                 out = rng.choice(('raise', 'failed'))
             elif family == 'malformed':
                 out = rng.choice(MALFORMED + ('raise', 'failed'))
+            elif family == 'unmergeable':
+                out = rng.choice(UNMERGEABLE + UNMERGEABLE + MALFORMED +
+                                 ('raise', 'failed'))
             else:
                 out = rng.choice(MALFORMED + ('raise', 'failed'))
         else:
@@ -198,6 +204,8 @@ def scripted_return(scn, i, status_enum, run_tag='r'):
         return upd, ('DONE', 99, None, 2.5)[var]
     if out == 'nonmapping':
         return ([1, 2], 7, 'update', [('k', 'v')])[var], status_enum.DONE
+    if out == 'clobber':
+        return {tsk['name']: ('text', None, 5, ['a'])[var]}, status_enum.DONE
     raise AssertionError(out)
 
 
